@@ -65,7 +65,7 @@ def tasks(tier):
     b = META["bounds"][tier]
     ts = [("compute", cw, dw) for cw, dw in b["compute"]]
     ts += [("compose", 4, 2), ("compose", 5, 3)]
-    ts += [("reflect",), ("catalogue",), ("loop-shape",)]
+    ts += [("reflect",), ("catalogue",), ("loop-shape",), ("params-frame",)]
     ts += [("processor", k) for k in range(b["processor_entries"])]
     ts += [("trailer", cw, dw, refl) for cw, dw in b["trailer"] for refl in (False, True)]
     return ts
@@ -295,6 +295,57 @@ def unit_processor(k, broken=False):
     return res
 
 
+def unit_params_frame():
+    """Frame: building hardware from a Parameters object does not change it -- compute(), residue(), the algorithm fields and a
+    SECOND Processor built from the same object are what they were before (closed: catalogue and custom entries with non-zero
+    initial value, several data widths; second processor compared with compute() on the real simulator)."""
+    from amaranth.lib import crc
+    from amaranth.sim import Simulator
+    obs = []
+    entries = [("CRC16_IBM_3740", crc.catalog.CRC16_IBM_3740, 8), ("CRC32_ISO_HDLC", crc.catalog.CRC32_ISO_HDLC, 8), ("CRC8_AUTOSAR", crc.catalog.CRC8_AUTOSAR, 4),
+               ("custom12", crc.Algorithm(crc_width=12, polynomial=0x80F, initial_crc=0xABC, reflect_input=True, reflect_output=False, xor_output=0x5), 6)]
+    for nm, algo, dw in entries:
+        params = algo(data_width=dw)
+        words = [1, (1 << dw) - 1, 5 % (1 << dw)]
+        snap = lambda: (params.compute(words), params.compute([]), params.residue(), repr(params.algorithm), params.data_width)
+        before = snap()
+        proc1 = params.create()
+        from amaranth.hdl import Fragment
+        Fragment.get(proc1, None)
+        after = snap()
+        bad = None
+        if before != after:
+            bad = {"before create()": before, "after create() + elaborate": after}
+        else:
+            proc2 = params.create()
+            got = {}
+
+            async def tb(ctx, proc2=proc2, words=words, got=got):
+                ctx.set(proc2.start, 1)
+                await ctx.tick()
+                ctx.set(proc2.start, 0)
+                got["empty"] = ctx.get(proc2.crc)
+                for w_ in words:
+                    ctx.set(proc2.data, w_)
+                    ctx.set(proc2.valid, 1)
+                    await ctx.tick()
+                ctx.set(proc2.valid, 0)
+                got["crc"] = ctx.get(proc2.crc)
+            sim = Simulator(proc2)
+            sim.add_clock(1e-6)
+            sim.add_testbench(tb)
+            try:
+                sim.run()
+            except Exception as e:
+                got["raised"] = repr(e)[:200]
+            if got != {"empty": before[1], "crc": before[0]}:
+                bad = {"second processor built from the same Parameters": got, "compute() says": {"empty": before[1], "crc": before[0]}}
+        obs.append({"name": f"params-frame[{nm},dw={dw}]::create-leaves-the-parameters-unchanged", "kind": "post", "status": "proved" if bad is None else "refuted",
+                    "backend": "closed", "time_s": 0.0,
+                    **({} if bad is None else {"failing_input": {**bad, "how": "params = Algorithm(data_width=dw); params.create(); elaborate; then compute / residue / a second create()"}})})
+    return {"task": "params-frame", "paths": len(obs), "solver_s": 0.0, "obligations": obs}
+
+
 def unit_trailer(cw, dw, refl):
     """For every register value r reached after a message: appending the CRC of that message in transmission
     order drives the register to a state where match holds; any other trailer does not."""
@@ -338,6 +389,8 @@ def run_task(task):
         return unit_reflect()
     if k == "catalogue":
         return unit_catalogue()
+    if k == "params-frame":
+        return unit_params_frame()
     if k == "loop-shape":
         return unit_loop_shape()
     if k == "processor":
@@ -421,7 +474,7 @@ def replay(data):
     if nm.startswith("Processor"):
         return concrete_processor_search() is not None
     for t in tasks("quick"):
-        if t[0] in ("trailer", "catalogue", "reflect", "loop-shape"):
+        if t[0] in ("trailer", "catalogue", "reflect", "loop-shape", "params-frame"):
             r = run_task(t)
             if any(o["name"] == nm and o["status"] == "refuted" for o in r["obligations"]):
                 return True
